@@ -18,8 +18,8 @@ THEOREMS = [
     (NS + "C08_dup_iff_contains", "full"),
     (NS + "C08_ack_fields_exact", "full"),
 ]
-# secondary tie (DESIGN 4.2): kernels regenerated from the source on every run, proved equal to the model (Props/Equiv.lean)
-EQUIV_THEOREMS = ["Mpgs.Equiv.gen_new", "Mpgs.Equiv.gen_diff", "Mpgs.Equiv.gen_add", "Mpgs.Equiv.gen_sub", "Mpgs.Equiv.gen_newer_than", "Mpgs.Equiv.gen_lt", "Mpgs.Equiv.gen_gt", "Mpgs.Equiv.gen_insert", "Mpgs.Equiv.gen_contains", "Mpgs.Equiv.gen_ack_names", "Mpgs.Equiv.gen_stale", "Mpgs.Equiv.gen_overhead", "Mpgs.Equiv.gen_setMTU"]
+# secondary tie (DESIGN 4.2): kernels regenerated from the source on every run, proved equal to the model (Props/Equiv<Group>.lean)
+EQUIV = {"Seq": ["Mpgs.Equiv.gen_new", "Mpgs.Equiv.gen_diff", "Mpgs.Equiv.gen_add", "Mpgs.Equiv.gen_sub", "Mpgs.Equiv.gen_newer_than", "Mpgs.Equiv.gen_lt", "Mpgs.Equiv.gen_gt"], "Window": ["Mpgs.Equiv.gen_insert", "Mpgs.Equiv.gen_contains", "Mpgs.Equiv.gen_stale"], "Ack": ["Mpgs.Equiv.gen_ack_names"]}
 ASSUMPTIONS = [
     "window theorems quantify over histories in which every inserted number is within 32767 of the newest "
     "(the property's own half-ring bound); sequence number 0 (never produced by the ring) is excluded from them",
